@@ -844,3 +844,131 @@ Proof.
   rewrite E1, (offset_from_lemma dbg (new b a) c (new_Inv b a) HWr HS).
   cbn [new off]. rewrite N.sub_0_r. split; reflexivity.
 Qed.
+
+(* ------------------------------------------------------------------ RelocateReader with the identity relocation *)
+Definition RInv (rc : rrd cur) : Prop :=
+  Inv (rsection rc) /\ wf_alloc (rsection rc) /\ Sub (rsection rc) (rreader rc).
+
+Lemma set_reader_id {R} (rc : rrd R) : set_reader rc (rreader rc) = rc.
+Proof. destruct rc; reflexivity. Qed.
+
+Lemma lift_pure {A} rc (r : res A) (f : A -> oval (rrd cur)) (g : A -> oval cur) :
+  (forall a, f a = lift_val rc (g a)) ->
+  (rc, rmap f r) = lift_out rc (rreader rc, rmap g r).
+Proof.
+  intros H. unfold lift_out. cbn [fst snd]. rewrite set_reader_id. f_equal.
+  destruct r; cbn; try reflexivity. now rewrite H.
+Qed.
+
+Lemma mmap_on_reader {A} rc (m : M cur A) (f : A -> oval (rrd cur)) (g : A -> oval cur) :
+  (forall a, f a = lift_val rc (g a)) ->
+  mmap f (on_reader m) rc = lift_out rc (mmap g m (rreader rc)).
+Proof.
+  intros H. unfold mmap, mbind, mret, on_reader, lift_out.
+  destruct (m (rreader rc)) as [c' [a|e| |]]; cbn; try reflexivity. now rewrite H.
+Qed.
+
+Lemma g_read_un_rr {R} (I : reader_impl R) w be rc :
+  g_read_un (rr_req I) w be rc = on_reader (g_read_un (i_req I) w be) rc.
+Proof.
+  unfold g_read_un, mbind, mret. cbn [q_read_slice rr_req]. unfold on_reader.
+  destruct (q_read_slice (i_req I) (N.of_nat w) (rreader rc)) as [c' [bs|e| |]]; reflexivity.
+Qed.
+Lemma g_read_in_rr {R} (I : reader_impl R) w be rc :
+  g_read_in (rr_req I) w be rc = on_reader (g_read_in (i_req I) w be) rc.
+Proof.
+  unfold g_read_in, mbind. rewrite (g_read_un_rr I). unfold on_reader, mret.
+  destruct (g_read_un (i_req I) w be (rreader rc)) as [c' [v|e| |]]; reflexivity.
+Qed.
+Lemma g_read_uint_rr {R} (I : reader_impl R) n be rc :
+  g_read_uint (rr_req I) n be rc = on_reader (g_read_uint (i_req I) n be) rc.
+Proof.
+  unfold g_read_uint. destruct (Nat.ltb 8 n).
+  - unfold mpanic, on_reader. now rewrite set_reader_id.
+  - apply (g_read_un_rr I).
+Qed.
+Lemma g_read_word_rr {R} (I : reader_impl R) be f rc :
+  g_read_word (rr_req I) be f rc = on_reader (g_read_word (i_req I) be f) rc.
+Proof. unfold g_read_word. destruct f; apply (g_read_un_rr I). Qed.
+
+Lemma rr_relocated_id dbg (inner : M cur N) rc :
+  RInv rc ->
+  mmap VNum (rr_relocated (er_impl dbg) inner rel_id) rc = lift_out rc (mmap VNum inner (rreader rc)).
+Proof.
+  intros (HI & HW & HS). unfold rr_relocated, mmap, mbind, mret, lift_out.
+  cbn [i_req er_impl default_impl q_offset_from er_req].
+  rewrite (offset_from_lemma dbg _ _ HI HW HS).
+  destruct (inner (rreader rc)) as [c' [v|e| |]]; reflexivity.
+Qed.
+
+Lemma rr_split_er dbg n rc :
+  mmap VRd (rr_split (er_impl dbg) n) rc = lift_out rc (spec_step dbg false (rreader rc) (rreader rc) (CSplit n)).
+Proof.
+  unfold rr_split, mmap, mbind, mret, lift_out. cbn [i_req er_impl default_impl q_truncate q_skip er_req spec_step].
+  unfold mprim. rewrite er_truncate_eq, er_skip_eq.
+  destruct (len (rreader rc) <? n); cbn; [now rewrite set_reader_id | reflexivity].
+Qed.
+
+Lemma rr_read_cstr_er dbg rc :
+  mmap VRd (g_read_cstr (rr_req (er_impl dbg))) rc =
+  lift_out rc (spec_step dbg false (rreader rc) (rreader rc) CReadCstr).
+Proof.
+  unfold mmap, g_read_cstr, mbind, mret, mget, lift_out.
+  cbn [q_find q_split q_skip rr_req i_req er_impl default_impl er_req spec_step].
+  unfold rr_split, on_reader. cbn [i_req er_impl default_impl q_truncate q_skip er_req].
+  unfold mprim, er_find.
+  destruct (position x00 (bytes (rreader rc))) as [i|] eqn:P; cbn [fst snd rmap bind].
+  2: now rewrite set_reader_id.
+  pose proof (position_lt _ _ _ P) as Hlt.
+  pose proof (view_of_length_le (buf (rreader rc)) (off (rreader rc)) (len (rreader rc))) as Hle.
+  fold (bytes (rreader rc)) in Hle.
+  rewrite er_truncate_eq, er_skip_eq.
+  assert (E1 : (len (rreader rc) <? i) = false) by lia. rewrite E1.
+  cbn [rreader set_reader].
+  rewrite er_skip_eq. assert (E2 : (len (adv (rreader rc) i) <? 1) = false) by (cbn; lia). rewrite E2.
+  rewrite adv_adv by lia. reflexivity.
+Qed.
+
+Lemma reloc_identity_lemma dbg be root rc op :
+  RInv rc ->
+  rstep dbg be root rc op = lift_out rc (step dbg be (rreader root) (rreader rc) op).
+Proof.
+  intros HR. unfold rstep, step, gstep.
+  cbn [i_req rr_impl i_read_address i_read_offset i_read_sized_offset er_impl default_impl].
+  destruct op.
+  - cbn [q_read_slice rr_req]. now apply mmap_on_reader.
+  - unfold mmap at 1, mbind at 1. rewrite g_read_un_rr.
+    change (mmap VNum (on_reader (g_read_un (i_req (er_impl dbg)) w be)) rc = lift_out rc (mmap VNum (g_read_un (er_req dbg) w be) (rreader rc))).
+    now apply mmap_on_reader.
+  - unfold mmap at 1, mbind at 1. rewrite g_read_in_rr.
+    change (mmap VInt (on_reader (g_read_in (i_req (er_impl dbg)) w be)) rc = lift_out rc (mmap VInt (g_read_in (er_req dbg) w be) (rreader rc))).
+    now apply mmap_on_reader.
+  - unfold mmap at 1, mbind at 1. rewrite g_read_uint_rr.
+    change (mmap VNum (on_reader (g_read_uint (i_req (er_impl dbg)) n be)) rc = lift_out rc (mmap VNum (g_read_uint (er_req dbg) n be) (rreader rc))).
+    now apply mmap_on_reader.
+  - cbn [q_skip rr_req]. now apply mmap_on_reader.
+  - change (mmap VRd (rr_split (er_impl dbg) n) rc =
+            lift_out rc (step dbg be (rreader root) (rreader rc) (CSplit n))).
+    rewrite rr_split_er. now rewrite step_spec.
+  - cbn [q_truncate rr_req]. now apply mmap_on_reader.
+  - cbn [q_empty rr_req]. now apply mmap_on_reader.
+  - cbn [q_find rr_req]. now apply lift_pure.
+  - cbn [q_len rr_req]. now apply (lift_pure rc (Ok (len (rreader rc))) VNum VNum).
+  - unfold g_is_empty. cbn [q_len rr_req].
+    now apply (lift_pure rc (Ok (len (rreader rc) =? 0)) VBool VBool).
+  - cbn [q_offset_id rr_req]. now apply (lift_pure rc (Ok (er_offset_id (rreader rc))) VNum VNum).
+  - cbn [q_lookup_offset_id rr_req]. now apply lift_pure.
+  - cbn [q_lookup_offset_id q_offset_id rr_req]. now apply lift_pure.
+  - cbn [q_offset_from rr_req]. now apply lift_pure.
+  - cbn [q_to_slice rr_req]. now apply (lift_pure rc (Ok (bytes (rreader rc))) VBytes VBytes).
+  - cbn [q_to_string rr_req]. now apply lift_pure.
+  - change (mmap VRd (g_read_cstr (rr_req (er_impl dbg))) rc =
+            lift_out rc (step dbg be (rreader root) (rreader rc) CReadCstr)).
+    rewrite rr_read_cstr_er. now rewrite step_spec.
+  - now apply rr_relocated_id.
+  - now apply rr_relocated_id.
+  - unfold mmap at 1, mbind at 1. rewrite g_read_word_rr.
+    change (mmap VNum (on_reader (g_read_word (i_req (er_impl dbg)) be fmt64)) rc = lift_out rc (mmap VNum (g_read_word (er_req dbg) be fmt64) (rreader rc))).
+    now apply mmap_on_reader.
+  - now apply rr_relocated_id.
+Qed.
